@@ -60,7 +60,85 @@ fn unescape(s: &str) -> String {
     out
 }
 
+fn tokenize(chunks: &[String], exact: bool, raw: Option<&str>, last: Option<&str>) -> Vec<String> {
+    let mut opts = TokenizerOpts::default();
+    opts.exact_errors = exact;
+    if let Some(r) = raw {
+        opts.initial_state = Some(match r {
+            "rcdata" => states::RawData(RawKind::Rcdata),
+            "rawtext" => states::RawData(RawKind::Rawtext),
+            "script" => states::RawData(RawKind::ScriptData),
+            "plaintext" => states::Plaintext,
+            _ => states::Data,
+        });
+    }
+    opts.last_start_tag_name = last.map(|s| s.to_string());
+    let sink = Sink { out: RefCell::new(vec![]), text: RefCell::new(String::new()) };
+    let tok = Tokenizer::new(sink, opts);
+    let q = BufferQueue::default();
+    for c in chunks {
+        q.push_back(StrTendril::from_slice(c));
+        let _ = tok.feed(&q);
+    }
+    tok.end();
+    let v = tok.sink.out.borrow().clone();
+    v
+}
+
+/// self-consistency sweep: every input (one escaped string per line, optional `raw=<kind>;last=<name>;` prefix)
+/// must tokenize identically (tokens and line numbers) whole, in every 2-chunking, and with exact_errors on.
+fn selfcheck(path: &str) {
+    let text = std::fs::read_to_string(path).unwrap();
+    let mut n = 0usize;
+    for line in text.lines() {
+        if line.is_empty() { continue; }
+        let mut raw: Option<String> = None;
+        let mut last: Option<String> = None;
+        let mut body = line;
+        while let Some(idx) = body.find(';') {
+            let (k, rest) = body.split_at(idx);
+            if let Some(v) = k.strip_prefix("raw=") { raw = Some(v.to_string()); body = &rest[1..]; }
+            else if let Some(v) = k.strip_prefix("last=") { last = Some(v.to_string()); body = &rest[1..]; }
+            else { break; }
+        }
+        let input = unescape(body);
+        let base = tokenize(&[input.clone()], false, raw.as_deref(), last.as_deref());
+        n += 1;
+        let ex = tokenize(&[input.clone()], true, raw.as_deref(), last.as_deref());
+        if ex != base {
+            println!("INCONSISTENT kind=exact_errors input={:?} raw={:?} last={:?}\n  default: {:?}\n  exact:   {:?}", input, raw, last, base, ex);
+            return;
+        }
+        let idxs: Vec<usize> = input.char_indices().map(|(i, _)| i).skip(1).collect();
+        for &i in &idxs {
+            let ch = tokenize(&[input[..i].to_string(), input[i..].to_string()], false, raw.as_deref(), last.as_deref());
+            n += 1;
+            if ch != base {
+                println!("INCONSISTENT kind=chunking input={:?} split_at={} raw={:?} last={:?}\n  whole:   {:?}\n  chunked: {:?}", input, i, raw, last, base, ch);
+                return;
+            }
+            // line number of EOF must be 1 + number of line breaks
+        }
+        let mut lb = 0u64;
+        let cs: Vec<char> = input.chars().collect();
+        let mut k = 0;
+        while k < cs.len() {
+            if cs[k] == '\r' { lb += 1; if k + 1 < cs.len() && cs[k + 1] == '\n' { k += 1; } }
+            else if cs[k] == '\n' { lb += 1; }
+            k += 1;
+        }
+        let want = format!("EOF@{}", lb + 1);
+        if base.last().map(|s| s.as_str()) != Some(want.as_str()) {
+            println!("INCONSISTENT kind=eof_line input={:?} raw={:?} last={:?}\n  tokens: {:?}\n  expected last token {}", input, raw, last, base, want);
+            return;
+        }
+    }
+    println!("CONSISTENT runs={}", n);
+}
+
 fn main() {
+    let a: Vec<String> = std::env::args().collect();
+    if a.len() == 3 && a[1] == "--selfcheck" { selfcheck(&a[2]); return; }
     let mut opts = TokenizerOpts::default();
     let mut chunks = vec![];
     let mut args = std::env::args().skip(1);
